@@ -129,6 +129,7 @@ type Link struct {
 	dir        [2]direction // dir[0]: dialer -> acceptor, dir[1]: acceptor -> dialer
 	ep         [2]*endpoint
 	cut        bool
+	black      bool // half-open: whatever is written vanishes, a close is not propagated
 	stallUntil time.Time
 	latMul     int
 	// statistics
@@ -203,13 +204,19 @@ func (lk *Link) deliver(d int, spawnSeq uint64) {
 	rd := lk.ep[1-d]
 	for {
 		lk.mu.Lock()
+		if lk.black {
+			dir.inflight = dir.inflight[:0]
+		}
 		n := len(dir.inflight)
-		fin, cut := dir.fin, lk.cut
+		fin, cut, black := dir.fin, lk.cut, lk.black
 		lk.mu.Unlock()
 		if cut {
 			return
 		}
 		if n == 0 {
+			if fin && black {
+				return // the peer never learns that this end was closed
+			}
 			if fin {
 				lk.mu.Lock()
 				rd.eof = true
@@ -245,6 +252,11 @@ func (lk *Link) deliver(d int, spawnSeq uint64) {
 			if lk.cut {
 				lk.mu.Unlock()
 				return
+			}
+			if lk.black {
+				dir.inflight = dir.inflight[:0]
+				lk.mu.Unlock()
+				break
 			}
 			k := burst
 			sn.mu.Lock()
@@ -458,6 +470,27 @@ func (sn *SimNet) LiveLinks() []*Link {
 		}
 	}
 	return out
+}
+
+// Blackhole makes the link half-open: bytes written by either end from now on are dropped
+// silently and the close of one end is not reported to the other (power loss, silent partition).
+func (l *Link) Blackhole() {
+	l.mu.Lock()
+	l.black = true
+	l.dir[0].inflight = l.dir[0].inflight[:0]
+	l.dir[1].inflight = l.dir[1].inflight[:0]
+	l.mu.Unlock()
+	l.sn.e.Fault("link-blackholed")
+}
+
+// BlackholeAll makes every live link half-open.
+func (sn *SimNet) BlackholeAll() int {
+	n := 0
+	for _, l := range sn.LiveLinks() {
+		l.Blackhole()
+		n++
+	}
+	return n
 }
 
 // CutAll cuts every live link (whole-connection loss).
